@@ -220,16 +220,19 @@ PENDING_REASON = "check not built yet in this round (see DESIGN.md §9 for the c
 
 # what the second build session added to each machine (DESIGN.md §10.10)
 EXTRA = {
- "C09": "The last gradient stop as well as the first, interior stop positions; generated decks among the corpus objects.",
+ "C09": "The last gradient stop as well as the first, interior stop positions; generated decks among the corpus objects."
+        " Every other re-open reads the saved file respelled (lower-case hex colours, true / false booleans); a stacked bar plot.",
  "C05": "Derived flows: a string already stored on a layout / notes-master placeholder when add_slide / notes_slide clones it.",
  "C10": "The hand-written adders of CT_GroupShape (add_autoshape ... add_textbox) are declarations read off their behaviour (op Hand) and judged like the generated inserters; every call is repeated on siblings that hold descendants named like the children."
         " Hand-written get-or-add methods keyed by an index child (dPt / dLbl for a point) with keyed tags (op HandGetOrAdd).",
  "C01": "Parts of the builder may be image-typed (the content type selects the part class python-pptx builds; several parts may hold the same bytes)."
-        " External targets in several spellings (escaped reserved characters, lower-case escapes, back-slashes).",
+        " External targets in several spellings (escaped reserved characters, lower-case escapes, back-slashes)."
+        " Type pool includes an unknown +xml type with an opaque payload and a macro-enabled embedded workbook type.",
  "C02": "Part lifecycle: decks whose unused layout carries a picture (genlogo) or whose image parts hold identical bytes (gendupimg), picture tokens "
         "chosen by the model, layout removal in every order relative to picture additions (an image part lives while a relationship reaches it)."
         " Also a deck in which generic parts (custom XML item, theme) alone reach further parts (gengeneric), a deck with relationship ids that are not rId<N>, ten pictures of one format."
-        " A deck whose part numbering has a gap (gengap).",
+        " A deck whose part numbering has a gap (gengap)."
+        " Every save of a history goes to one stream the caller keeps.",
  "C03": "Further hosts (mbt/checks/c03_hosts.py): the histories of the Table, TextBody, Geometry (connector / group / freeform) and Layout machines are "
         "replayed by their own drivers with the XSD monitor switched on and judged by the same clauses (a call that returned: AllPartsValid; a call that "
         "raised: RejectedKeepsValidity)."
@@ -238,40 +241,50 @@ EXTRA = {
         "hold newline / tab characters."
         " A text-frame object obtained before the calls is kept and read after every step (KeptObjectAgrees).",
  "C06": "The allocator machines (Alloc.tla) lay the pre-existing identifiers down in ascending and in descending DOCUMENT order: the allocators are functions of the set."
-        " Shape ids carried by members of a group / an AlternateContent fallback; allocation inside a group.",
+        " Shape ids carried by members of a group / an AlternateContent fallback; allocation inside a group."
+        " One freeform builder converted again.",
  "C07": "The chart-data object handed to replace_data is also STAGED (one object, rendered into a throw-away chart when half built - left spine of "
         "the category tree, first series / point - then completed): nothing an earlier rendering computed may be remembered."
         " The multi-plot corpus charts are replaced with every series count from one to more than they hold."
         " A zero as the first numeric category.",
  "C08": "Sites: add_chart, replace_data, one object reused after growing (ReuseData), one object rendered when half built and then completed (StagedData); "
         "every series count from 1 to n+1 on every multi-plot corpus chart."
-        " Decks in which chart and workbook numbers are not aligned (an OLE workbook added first).",
+        " Decks in which chart and workbook numbers are not aligned (an OLE workbook added first)."
+        " The charts of a chunk are all created first and replaced afterwards.",
  "C11": "Setter level (PropRefusal.tla): on the traces of C09's property machine (every catalogued property x every out-of-domain / wrong-type value, "
-        "alone and after an accepted assignment) a call refused with TypeError / ValueError loses no attribute value or text the part held.",
+        "alone and after an accepted assignment) a call refused with TypeError / ValueError loses no attribute value or text the part held."
+        " Reader stage: one saved file read as written and respelled; the catalogued readers must agree (RespelledFormsReadable).",
  "C12": "Generated decks join every tier: one slide per layout, every shape kind + notes, a canvas-window group, and a deck whose slide part names are "
         "out of order with a gap (slide3, slide1, slide4) with notes pages."
         " A slide with content of other producers (mc:AlternateContent on the slide and in a group, a p:nvPr extension list)."
-        " A slide-number field whose text is not the slide's position.",
+        " A slide-number field whose text is not the slide's position."
+        " Chart and axis titles linked to a worksheet cell.",
  "C13": "Layout placeholders carried by p:pic / p:graphicFrame (filled in Slide Master view); a deck with out-of-order slide part names; after a re-open "
         "every slide is still there in order with its content (ReopenKeepsSlides)."
         " The layout's placeholder elements are removed / reordered between two slide additions (dropPh / movePh): a slide mirrors the layout as it is then."
         " Geometry inherited pair by pair (a position without a size and the reverse).",
  "C14": "Actions also resize the graphic frame itself (frame size = sum is the post-condition of a row/column change, whatever the frame was); text "
-        "patterns with bodies of 1/2/3 empty paragraphs; document variants of the table (no a:tblPr, no a:tcPr, a:extLst children).",
+        "patterns with bodies of 1/2/3 empty paragraphs; document variants of the table (no a:tblPr, no a:tcPr, a:extLst children)."
+        " A Table object obtained before the call is read after it (KeptObjectAgrees); cells whose only content is a field.",
  "C15": "Part lifecycle: a layout carrying a picture is removed (its image part leaves the package, its name is free again; MC_Media transcribes "
         "next_image_partname and keeps the live names in the state); every picture added is re-read after every step and from the re-opened file; "
         "one file path overwritten with images of identical byte length."
-        " Images with an EXIF orientation.",
+        " Images with an EXIF orientation."
+        " A stream whose cursor is mid-way.",
  "C16": "Corpus faults include two relationships to one absent part and an absent part that several relationships target."
         " An unreferenced member whose name differs only in letter case from a reachable part, stored after / before it.",
  "C17": "Connectors also start from frames as a document holds them (zero extent with the flip attribute set); a freeform pen may be converted while "
-        "half drawn before the conversion that is judged.",
+        "half drawn before the conversion that is judged."
+        " Connectors loaded turned by 180 degrees.",
  "C18": "W3CDTF fractions of 7, 9 and 12 digits; a text class that looks like an OOXML character escape."
-        " Initial package written by another producer (mixed-content cp:keywords, xml:lang, other child order).",
+        " Initial package written by another producer (mixed-content cp:keywords, xml:lang, other child order)."
+        " Revisions beyond 2^31.",
  "C19": "Accessor family: index 0, zero-padded digits, 9 / 10 / 100, long stems, 2^31-1."
         " Names with two consecutive periods."
-        " Names outside ASCII (combining accent, precomposed).",
- "C20": "Hosts: slide, group, and a slide that already holds a customised shape (chart) of the same type.",
+        " Names outside ASCII (combining accent, precomposed)."
+        " A percent sign in a directory segment.",
+ "C20": "Hosts: slide, group, and a slide that already holds a customised shape (chart) of the same type."
+        " Host partial: the definition's guides written out in reverse order.",
 }
 for _k, _v in EXTRA.items():
     CHECKS[_k]["text"] += " " + _v
